@@ -13,7 +13,7 @@ from enum import Enum
 
 import pandas as pd
 from particle import SpinType
-from particle.particle.utilities import programmatic_name
+from particle.particle.utilities import programmatic_name as _programmatic_name
 
 from ..utils import LineFailure
 from .amplitudechain import LS, AmplitudeChain
@@ -51,6 +51,17 @@ known_spinfactors = {
     "Dtos1P1_s1toS2P2_S2toP3P4": (SF_4Body.DtoPP1_PtoSP2_StoP3P4,),
     "Dtos1P1_s1toV2P2_V2toP3P4": (SF_4Body.DtoPP1_PtoVP2_VtoP3P4,),
 }
+
+
+def programmatic_name(name):
+    """
+    Return a name safe to use as a variable name.
+    Parameter names are never nuclei, see ``particle.particle.utilities.programmatic_name``.
+    """
+    try:
+        return _programmatic_name(name, is_nucleus=False)
+    except TypeError:  # older versions of particle do not have the is_nucleus argument
+        return _programmatic_name(name)
 
 
 def sprint(stype):
